@@ -71,7 +71,15 @@ func generic(e *vs.Exec) []Viol {
 	return v
 }
 
+// PerScenario is the wall-clock allowance of one scenario (one shard of it). Exploration that runs
+// out of it is reported as exhaustive:false with the scenario named — never as a violation. It
+// exists so that a changed tree with a much larger interleaving space cannot make a check run away.
+var PerScenario = 60 * time.Second
+
 func runScenario(id string, s *Scenario, out *workerOut, deadline time.Time) {
+	if d := time.Now().Add(PerScenario); deadline.IsZero() || d.Before(deadline) {
+		deadline = d
+	}
 	x := &vs.Explorer{Opt: s.Opt, Bound: s.Bound, Prune: s.Prune && s.Bound < 0, MaxExecs: s.MaxExecs, Deadline: deadline, Shard: s.shard, NShards: s.nshards, Deviations: s.Deviations}
 	seenKey := map[string]bool{}
 	x.Check = func(e *vs.Exec) string {
